@@ -37,6 +37,7 @@ def cases(tier, rng, run):
 
 
 def _fields(report: str) -> dict:
+    report = report.split(" msg-mismatch", 1)[0]
     return dict(f.split("=", 1) for f in report.split(" ")[2:] if "=" in f)
 
 
@@ -48,6 +49,8 @@ def judge(case, impl_out, spec):
         return "the checker raised " + end.split(" ")[1] + ", which is not a DLTypeError"
     if not end.startswith("reject"):
         return None
+    if " msg-mismatch" in end:
+        return "the message of the error does not carry what its attributes say: " + end.split(" msg-mismatch", 1)[1]
     kind = end.split(" ")[1]
     if kind.startswith("unknown-"):
         return "rejection with an unknown DLTypeError subclass"
